@@ -60,6 +60,30 @@ def c06(ctx):
                 return
 
 
+# ---------------------------------------------------------------------------------------- C13
+def c13(ctx):
+    """same configuration, seed and actions => same episode, in any process"""
+    data = getattr(ctx.run, "c13", None)
+    if not data:
+        return
+    mine = data["mine"]
+    for tw in data["twins"]:
+        job = tw["job"]
+        if "error" in tw:
+            # a twin that could not be run is a harness problem, not a statement about the property
+            ctx.run.c13_errors = getattr(ctx.run, "c13_errors", 0) + 1
+            continue
+        lines = tw["lines"]
+        what = "other-seed" if job.get("seed_override") is not None else ("other-env-alive" if job.get("other") else "other-process")
+        if len(lines) != len(mine):
+            yield F(f"twin-differs:{what}", f"{job}: {len(mine)} vs {len(lines)} trace lines", None)
+            return
+        for i, (a, b) in enumerate(zip(mine, lines)):
+            if a != b:
+                yield F(f"twin-differs:{what}", f"{job}: line {i}: {a[:160]} | {b[:160]}", None)
+                return
+
+
 # ---------------------------------------------------------------------------------------- C14
 def c14(ctx):
     env = ctx.run.env
